@@ -62,7 +62,7 @@ VARIABLE c
 Init == c \in [s : Shapes, o : {Opt0}, stage : {"tree"}]
 Next == /\ c.stage = "tree"
         /\ \/ c' = [c EXCEPT !.stage = "treelaws"]
-           \/ \E o \in Opts : c' = [c EXCEPT !.stage = "case", !.o = o]
+           \/ \E o \in {x \in Opts : ~x.pft} : c' = [c EXCEPT !.stage = "case", !.o = o]      \* both pft values: inside CaseLaws
 
 DirPaths(t) == {e.path : e \in {x \in t : x.kind = "directory"}}
 RelPaths == {<<>>} \cup UNION {{SubSeq(p, i, Len(p)) : i \in 1..Len(p)} : p \in P}
@@ -91,10 +91,11 @@ CaseLaws ==
     /\ \A x \in T : StrictPrefix(Sub, x.path) => \E e \in Sel : Sub \o e.path = x.path              \* nothing below it is left out
     /\ \A f \in {"dir", "tar", "zip"} :
           LET exp == Expected(f, T, c.o, Dest)
+              o2 == [c.o EXCEPT !.pft = TRUE]
               obs == ObsOf(f, exp, c.o) IN
           /\ Cardinality(exp) = Cardinality(Sel) /\ Cardinality(PathsOf(exp)) = Cardinality(exp)     \* no collisions
           /\ FailedLaws(exp, obs) = {} /\ MtOk(f, exp, obs, c.o)                                      \* the laws accept the spec
-          /\ Expected(f, T, [c.o EXCEPT !.pft = ~c.o.pft], Dest) = exp                                \* timestamps option: same content
+          /\ Expected(f, T, o2, Dest) = exp /\ MtOk(f, exp, ObsOf(f, exp, o2), o2)                    \* timestamps option: same content
     /\ LET tar == Expected("tar", T, c.o, Dest) IN
        \A f \in {"tgz", "tbz2", "txz"} : Expected(f, T, c.o, Dest) = tar                              \* compression is transparent
 LawsHoldOnSpec == (c.stage = "treelaws" => TreeLaws) /\ (c.stage = "case" => CaseLaws)
